@@ -1,0 +1,17 @@
+// Copyright © 2022-2026 Obol Labs Inc. Licensed under the terms of a Business Source License 1.1
+
+//go:build verif
+
+package core
+
+import (
+	"context"
+
+	"github.com/jonboulle/clockwork"
+)
+
+// NewDeadlinerVerif exposes newDeadliner (with an injectable clock) to the external
+// verification harness. It adds no behaviour.
+func NewDeadlinerVerif(ctx context.Context, deadlineFunc DeadlineFunc, clock clockwork.Clock) Deadliner {
+	return newDeadliner(ctx, "verif", deadlineFunc, clock)
+}
